@@ -376,6 +376,7 @@ pub fn do_stabilise(w: &Rc<World>) {
     let round = w.model.borrow().rounds_started();
     w.log(Ev::RoundStart { round });
     w.in_stabilise.set(true);
+    w.handler_phase.set(false);
     // if this unwinds, in_stabilise stays true on purpose: the state is poisoned (C13)
     st.stabilise();
     w.in_stabilise.set(false);
